@@ -44,3 +44,15 @@ func (s *Rng) Weighted(w []int) int {
 	}
 	return len(w) - 1
 }
+
+func (s *Rng) Perm(n int) []int {
+	p := make([]int, n)
+	for i := range p {
+		p[i] = i
+	}
+	for i := n - 1; i > 0; i-- {
+		j := s.Intn(i + 1)
+		p[i], p[j] = p[j], p[i]
+	}
+	return p
+}
